@@ -15,7 +15,8 @@ from cflib.crtp.crtpstack import CRTPPacket
 
 class Config:
     def __init__(self, n_log=3, n_param=2, fault_at=None, fault_mode='driver', log_crc=0x11111111, par_crc=0x22222222,
-                 needs_resending=False, hold_after=None, dup_notify=False, dup_after=None, mems=(), slow_send=None):
+                 needs_resending=False, hold_after=None, dup_notify=False, dup_after=None, mems=(), slow_send=None,
+                 slow_reply=None):
         self.n_log, self.n_param = n_log, n_param
         self.fault_at, self.fault_mode = fault_at, fault_mode
         self.log_crc, self.par_crc = log_crc, par_crc
@@ -28,6 +29,10 @@ class Config:
         # [port, seconds]: send_packet blocks that long for packets of this port (RadioDriver.send_packet blocks up to
         # 2 s when its out queue is full) — the caller holds Crazyflie's send lock meanwhile
         self.slow_send = slow_send
+        # [port, channel, first data byte or None, seconds]: the device's answers to those requests arrive that much
+        # later (a slow peer / congested downlink).  Every request received is answered, so a request the library
+        # re-sends meanwhile is answered twice, both answers late.
+        self.slow_reply = slow_reply
         self.dup_notify = dup_notify     # firmware re-announces parameter 0 (value-updated notifications) during the download
 
 
@@ -137,8 +142,20 @@ class FakeLink(CRTPDriver):
         if self.cfg.fault_at == 0 and self.cfg.fault_mode == 'driver':
             self.fault_ev.set()
 
-    def _reply(self, port, chan, data):
+    def _reply(self, port, chan, data, _late_ok=False):
         c = self.cfg
+        sr = c.slow_reply
+        if (sr and not _late_ok and (port, chan) == (sr[0], sr[1])
+                and (sr[2] is None or bytes(data)[:1] == bytes([sr[2]]))):
+            import threading
+            import time
+
+            def later():
+                time.sleep(sr[3])
+                if not self.closed:
+                    self._reply(port, chan, data, True)
+            threading.Thread(target=later).start()
+            return
         if c.hold_after is not None and self.count >= c.hold_after:
             return
         if self.fault_done:
